@@ -45,7 +45,7 @@ def gen_cases(ctx):
   # round 10: the same family over every BACKEND the constructors accept, bounded and unbounded, producers ahead
   for k in range(12 if ctx.quick else 300):
     for b, bd in lqb.sync_arm_list():
-      case = lqb.gen_backend_case(rng, b, bd, 3 if ctx.quick else 5)
+      case = lqb.gen_backend_case(rng, k, b, bd, 3 if ctx.quick else 5)
       ctx.count('backend_cases', lqb.arm(case))
       yield case
 
